@@ -206,9 +206,15 @@ def run_sqlite(ctx, cases, slice_table, lmax, crange):
                 for m in range(lo, hi + 1):
                     T(s=ALPHA[:L], n=n, m=m)
     executed = rows = 0
-    for case in cases:
+    nested = [(c, True) for c in cases if c[0] == 'slice' and 'param' in (c[1][0], c[2][0]) and 'col' not in (c[1][0], c[2][0])]
+    for case, in_subquery in [(c, False) for c in cases] + nested:
         kind, ks, ke = case
-        src = query_src(case).replace('x.s[', '(x.s, x.n, x.m, x.s[', 1).replace('] for x in T', ']) for x in T')
+        if in_subquery:
+            # the slice inside an aggregate subquery: its parameter bounds are pinned in the translation, and the same
+            # query text is executed again and again with other bounds
+            src = '(x.s, x.n, x.m, max(y.s[%s:%s] for y in T if y.id == x.id)) for x in T' % (src_of(ks, 'a'), src_of(ke, 'b'))
+        else:
+            src = query_src(case).replace('x.s[', '(x.s, x.n, x.m, x.s[', 1).replace('] for x in T', ']) for x in T')
         a = ks[1] if ks[0] == 'param' else None
         b = ke[1] if ke[0] == 'param' else None
         try:
@@ -217,7 +223,7 @@ def run_sqlite(ctx, cases, slice_table, lmax, crange):
         except (core.TranslationError, TypeError, NotImplementedError, IndexError):
             continue
         executed += 1
-        sig = 'C25:SQLite-exec:%s:start=%s:stop=%s' % (kind, cls_of(ks), cls_of(ke))
+        sig = 'C25:SQLite-exec%s:%s:start=%s:stop=%s' % ('-subquery' if in_subquery else '', kind, cls_of(ks), cls_of(ke))
         if zero_minus_one(case):
             sig = 'C25:SQLite-exec:slice:zero-start-stop-minus-one'
         for s, n, m, got in result:
